@@ -34,4 +34,34 @@ TEXT = {
         "level_text": "Generated histories with 2-6 addresses on accepting and non-accepting endpoints: real remote connections as traffic sources over lossy wires, garbage, connless and cross-talk datagrams, all application calls, ticks. After every move the hooked peer table must match the references exactly (state fingerprint per peer, set of live addresses, distinct ids, minimum deadline) and no datagram may go to an address other than the one the call concerned.",
         "level_note": "The projection rule (reference created with the peer; canned connect at accept) is the harness's reading of the Net API; a panic on both sides counts as equivalent (belongs to C04).",
     },
+    "C05": {
+        "technique": "runtime monitor: generated packet values written and re-read by the real codec (round-trip oracle, empty warning sink, compression branch read off the header bit); exhaustive sweeps of the header bit-field pack/unpack pairs",
+        "level_text": "Hundreds of thousands of packet values per run (connless, every control message with/without token, close reasons 0..127 bytes, chunk packets with both flags, ack 0..1023, chunk count 0..255, payloads 0..max from all-zero to noise) are written and read back field by field in both protocol versions, with both writer branches (compressed / uncompressed) counted; chunk sequences through write_chunk / ChunksIter; in the thorough tier all 2^24 0.6 packet headers, all vital (2^24) and non-vital (2^16) chunk headers of both versions and all first-three-byte patterns of the 0.7 header are enumerated.",
+        "level_note": "Values stay inside the writer's documented preconditions. Header sub-spaces are exhaustive in thorough (stride 7 in quick); packet values are PRNG samples.",
+    },
+    "C06": {
+        "technique": "runtime monitor: hostile inputs through the real reader under catch_unwind and a CPU watchdog; pointer-range (provenance) checks of every returned slice against the input and a canary-guarded scratch buffer; closure oracle (accepted value is re-written and re-read equal); Miri sample",
+        "level_text": "All byte strings up to 3 bytes (thorough; <=2 plus spread 3-byte strings in quick) with every token hint and both versions, millions of single/double corruptions, truncations and extensions (to 3000 bytes) of valid packets of every kind, decompression bombs expanding to 1390..8000 bytes, truncated and garbage Huffman streams go through Packet::read, read_panic_on_decompression, decompress_if_needed, is_initial and the chunk iterator. The oracles observe panics, CPU time, the address ranges of returned slices, the guard bytes around the scratch buffer, and whether accepted values survive write+read.",
+        "level_note": "A clean run is not memory safety: provenance and canaries see out-of-range slices and adjacent overwrites only; Miri/ASan runs cover samples. Two closure findings (connless payloads of 1391..1394 bytes) are listed in known_findings.json.",
+    },
+    "C07": {
+        "technique": "runtime monitor: round-trip, exact-length and capacity oracles on the real codec with canary-guarded output windows for every capacity; differential comparison with the bundled C++ reference implementation (compressor byte-identical, decoder one-directional); Miri on the unsafe uninitialized_mut/advance pair",
+        "level_text": "All compressor inputs of length <= 2 are enumerated; structured and random strings up to 8 KiB are compressed in both output forms into buffers of every capacity (short outputs) or boundary capacities; valid, truncated, extended, garbage and recorded streams are decompressed against every output capacity 0..needed+2; the same is repeated for generated frequency tables. The C++ reference is linked in and compared on every input it handles.",
+        "level_note": "Generated tables keep frequency sums < 2^31 and depth <= 24 (vectors the constructor rejects by panicking are counted and skipped; the property does not claim them). Only inputs of length <= 2 are exhaustive.",
+    },
+    "C09": {
+        "technique": "runtime monitor: model-based oracle (a BTreeMap model of each snapshot) over delta create/apply in memory, through the byte and integer wire forms; differential comparison with the bundled DDNet reference CreateDelta and snapshot builder; exhaustive enumeration of tiny universes",
+        "level_text": "All ordered pairs over 39 tiny universes (<= 3 keys, <= 3 words, six boundary values per word, keys on both sides of 0x8000, pre-agreed and explicit sizes) are enumerated in the thorough tier (a slice in quick); random pairs up to 1024 items / 64 KiB with items added, removed, changed with wrapping differences and untouched. For each pair the delta is applied in memory, via bytes and via ints and the result compared with the model of B (items, data, checksum, empty warning sink); the reference's delta for the same pair is read and applied here; the snapshot's integer serialisation is compared with the reference builder's.",
+        "level_note": "Item size is a function of the key inside one universe (documented precondition of Delta::create). Reference comparison only inside the reference's own limits.",
+    },
+    "C10": {
+        "technique": "runtime monitor: model-based indistinguishability oracle through the public API (items(), item() for every original key, crc, recycle) after byte and integer serialisation and after delta application",
+        "level_text": "Tens of thousands of builder-made snapshots per run (0..1024 items, 0..40 UUID types interleaved with ordinal ones, ids over the whole range, lengths up to the 64 KiB limit) are serialised both ways, read back, rebuilt from deltas (from empty and from a predecessor via a recycled builder) and recycled; after each step every original (type, id) is looked up and the enumeration, data and checksum compared with the model.",
+        "level_note": "Snapshots are PRNG samples; the predecessor/successor pair for the delta path is built through recycle, as Storage::new_builder does.",
+    },
+    "C15": {
+        "technique": "runtime monitor: write-then-read round-trip oracle over generated recordings at the chunk level and at the typed object level (model = the per-tick object sets), coverage read off the written bytes as doc/demo.md lays them out; refusal probes for non-increasing ticks and duplicate keys",
+        "level_text": "Thousands of recordings per run: low-level chunk sequences with tick gaps on both sides of the inline limit, key frames, payloads built to exact compressed sizes (29/30, 255/256, 65534/65535), empty payloads, every message length residue, headers up to capacity-1; high-level world histories of 18 typed DDNet object kinds (incl. UUID types) over several key-frame intervals with objects appearing, changing and vanishing, interleaved messages, and same-tick / smaller-tick / duplicate-key probes after which the rest of the recording must still round-trip.",
+        "level_note": "Payloads the low-level writer cannot carry (compressed form over its buffer or over 16 bits) count as not accepted. Object types with boolean members are left out (C14 finding). Two low-level findings are listed in known_findings.json.",
+    },
 }
